@@ -286,6 +286,7 @@ public:
 
   void start() noexcept {
     if (auto* acceptor = pass_.call_or_suspend(this)) {
+      UNIFEX_VERIF_YIELD("event.pass.claimed");
       if constexpr (Noexcept) {
         (*this->call_)(this, *acceptor);
       } else {
@@ -354,6 +355,7 @@ public:
 
   void start() noexcept {
     if (auto* acceptor = pass_.call_or_suspend(this)) {
+      UNIFEX_VERIF_YIELD("event.pass.claimed");
       (*acceptor->set_error_)(acceptor, std::move(this->ex_));
       (*acceptor->unlocked_complete_)(acceptor);
       (*this->resume_)(this);
@@ -470,6 +472,7 @@ public:
 
   void start() noexcept {
     if (auto* caller = pass_.template accept_or_suspend<Noexcept>(this)) {
+      UNIFEX_VERIF_YIELD("event.pass.claimed");
       if constexpr (Noexcept) {
         caller->call(*this);
       } else {
@@ -679,6 +682,7 @@ public:
                !Noexcept || std::is_nothrow_invocable_v<F, Args...>))  //
       bool try_accept(F&& f) noexcept(Noexcept) {
     if (auto* caller = this->template try_claim_caller<Noexcept>()) {
+      UNIFEX_VERIF_YIELD("event.pass.claimed");
       auto acceptor{
           accept_call_with<Noexcept, type_list<Args...>>(std::forward<F>(f))};
       scope_guard resume{[caller]() noexcept { (*caller->resume_)(caller); }};
@@ -717,6 +721,7 @@ public:
                std::is_nothrow_invocable_v<F, acceptor_constraint&>))  //
       [[nodiscard]] bool try_call(F&& callerFn) noexcept {
     if (auto* acceptor = this->try_claim_acceptor()) {
+      UNIFEX_VERIF_YIELD("event.pass.claimed");
       using acceptor_t =
           typename accept_op_base<Args...>::template callable<Noexcept>;
       if constexpr (Noexcept) {
@@ -751,6 +756,7 @@ public:
       (requires Enable)              //
       [[nodiscard]] bool try_throw(std::exception_ptr ex) noexcept {
     if (auto* acceptor = this->try_claim_acceptor()) {
+      UNIFEX_VERIF_YIELD("event.pass.claimed");
       (*acceptor->set_error_)(acceptor, std::move(ex));
       (*acceptor->unlocked_complete_)(acceptor);
       return true;
